@@ -443,6 +443,10 @@ func worstNS(a, b string) string {
 	return a
 }
 
+// cellOpen: the cells whose stores are being expanded by abs (analyses run on one goroutine per process… guarded by the
+// fact that abs is only entered from rule code, which core runs sequentially).
+var cellOpen = map[*ssa.Alloc]bool{}
+
 // abs abstracts error value v inside fn.
 func (e *errEngine) abs(fn *ssa.Function, v ssa.Value, depth int) []errAbs {
 	if v == nil || depth > 30 {
@@ -474,11 +478,18 @@ func (e *errEngine) abs(fn *ssa.Function, v ssa.Value, depth int) []errAbs {
 				return []errAbs{{Kind: "raw", Desc: "bare " + g.Name(), Pos: x.Pos()}}
 			}
 			if a, ok := x.X.(*ssa.Alloc); ok {
+				// a cell that is being expanded contributes nothing new to its own value (err = wrap(err) in a function
+				// whose named result is captured by a deferred closure: without this the expansion is stores^depth)
+				if cellOpen[a] {
+					return nil
+				}
+				cellOpen[a] = true
 				stores, _ := ssax.CellStores(a)
 				var out []errAbs
 				for _, st := range stores {
 					out = append(out, e.abs(st.Parent(), st.Val, depth+1)...)
 				}
+				delete(cellOpen, a)
 				if len(out) > 0 {
 					return out
 				}
